@@ -7,7 +7,7 @@ from contracts.c12 import Tuner_run  # noqa: F401  (failure limit, run carries o
 from contracts.c04 import Prom_on_task_remove  # noqa: F401  (rung entries / running map of other trials intact)
 from contracts.c05 import ScenarioManager  # noqa: F401  (failed jobs rank last, brackets do not wait forever)
 
-LEVEL = "exploration"
+LEVEL = "proof"
 EXPLANATION = (
     "Failure containment is decided per layer: the tuner notifies the scheduler once per failure and enforces the limit "
     "(C01 / C12 contracts), promotion rung systems and synchronous brackets keep other trials' bookkeeping (C04 / C05 contracts), "
